@@ -99,6 +99,11 @@ ReadSeesReturned == IsRead => Fits(DocsOf(E.docs), 0 - 1, retAt[E.c], 0) # {}
 \* successive reads by one client never go backwards
 ReadsMonotonic == IsRead => Fits(DocsOf(E.docs), 0 - 1, retAt[E.c], lastK[E.c]) # {}
 
+\* a search on a healthy, open index does not fail: a read that ends in an error
+\* ("index read inconsistency detected": the hits and what was loaded for them
+\* belong to different states) observed no state at all
+ReadsSucceed == l <= Len(Trace) => E.ev # "ReadError"
+
 \* a search that matches on the version term of batch b returns hits whose STORED
 \* version is b too, and exactly the documents some prefix holds at version b
 IsTermRead == l <= Len(Trace) /\ E.ev = "TermRead"
